@@ -41,6 +41,9 @@ partial def pkActs : Nat → List String → List Act → Option (List Act × Li
   | k + 1, "E" :: r, acc => do
     let (a, r1) ← pkPat r
     pkActs k r1 (.expr a :: acc)
+  | k + 1, "X" :: v :: r, acc => do
+    let (a, r1) ← pkPat r
+    pkActs k r1 (.letv (← (v.drop 1).toNat?) a :: acc)
   | _, _, _ => none
 
 def pkNats : Nat → List String → List Nat → Option (List Nat × List String)
@@ -53,14 +56,22 @@ def pkPairs : List Nat → Option (List (Nat × Nat))
   | a :: b :: r => do some ((a, b) :: (← pkPairs r))
   | _ => none
 
-/-- `pk check R <nb> <nh> F <any> <pat> <pat> … U <pat> <pat> | E <pat> … T <head> <kids,comma> …
-S leaf l r | S rule r np p… ns v t … l r | S sym p l r | S trans p q l r | S congr p i q l r …` -/
-partial def pkParse : List String → List Rule → Array Term → List Step → Option (List Rule × Array Term × List Step)
-  | [], rs, ts, ss => some (rs.reverse, ts, ss.reverse)
+/-- `pk check R <nb> <nh> F <any> <pat> <pat> … U <pat> <pat> | E <pat> | X v<k> <pat> …
+G <n> <acts> (top-level actions)  L <h,comma> (literal heads)  T <head> <kids,comma> …
+S leaf l r | S fiat l r | S rule r np p… ns v t … l r | S sym p l r | S trans p q l r | S congr p i q l r …` -/
+partial def pkParse : List String → Prog → Array Term → List Step → Option (Prog × Array Term × List Step)
+  | [], rs, ts, ss => some ({ rs with rules := rs.rules.reverse }, ts, ss.reverse)
+  | "G" :: n :: rest, rs, ts, ss => do
+    let (acts, r1) ← pkActs (← n.toNat?) rest []
+    pkParse r1 { rs with globals := rs.globals ++ acts } ts ss
+  | "L" :: hs :: rest, rs, ts, ss => do
+    let l ← if hs = "-" then some [] else (hs.splitOn ",").mapM String.toNat?
+    pkParse rest { rs with lits := l } ts ss
+  | "S" :: "fiat" :: l :: r :: rest, rs, ts, ss => do pkParse rest rs ts (⟨.fiat, ← l.toNat?, ← r.toNat?⟩ :: ss)
   | "R" :: nb :: nh :: rest, rs, ts, ss => do
     let (body, r1) ← pkFacts (← nb.toNat?) rest []
     let (head, r2) ← pkActs (← nh.toNat?) r1 []
-    pkParse r2 (⟨body, head⟩ :: rs) ts ss
+    pkParse r2 { rs with rules := ⟨body, head⟩ :: rs.rules } ts ss
   | "T" :: h :: ks :: rest, rs, ts, ss => do
     let h ← h.toNat?
     let kids ← if ks = "-" then some [] else (ks.splitOn ",").mapM String.toNat?
@@ -84,7 +95,7 @@ partial def pkParse : List String → List Rule → Array Term → List Step →
 def pkStep (toks : List String) : String :=
   match toks with
   | "check" :: rest =>
-    match pkParse rest [] #[] [] with
+    match pkParse rest ⟨[], [], []⟩ #[] [] with
     | some (rs, ts, ss) => toString (checkProof rs ts ss)
     | none => "bad-op"
   | _ => "bad-op"
